@@ -75,7 +75,7 @@ func (C01) Generate(seed uint64, tier string) *core.Scenario {
 	b.Config = []string{"mem", "local", "local", "journal", "journal", "gen-journal", "gen-local"}[r.Intn(7)]
 	b.MemTable = uint64([]int{1 << 10, 4 << 10, 64 << 10}[r.Intn(3)])
 	b.MaxTab = []int{2, 3, 5, 256}[r.Intn(4)]
-	b.Cfg = JCfg{BuffSize: uint32([]int{16 << 10, 64 << 10}[r.Intn(2)]), SyncThreshold: 64 << 20, MaxNovel: []int{2, 5, 16384}[r.Intn(3)], MemTable: b.MemTable}
+	b.Cfg = JCfg{BuffSize: uint32([]int{16 << 10, 64 << 10}[r.Intn(2)]), SyncThreshold: 64 << 20, MaxNovel: []int{2, 5, 16384}[r.Intn(3)], MemTable: b.MemTable, MmapArchives: r.Chance(1, 2)}
 	b.Faults = r.Chance(1, 3) && b.Config != "mem"
 	maxChunk := int(b.MemTable)/2 - 200
 	if maxChunk > 5000 {
